@@ -112,7 +112,7 @@ func shapeScenarioRuns(name string, d *shapeDesc, kinds []int, mk func(root *spe
 	var setup func(h *H)
 	body := func() {
 		if root == nil {
-			g := &shapeGen{leafKinds: kinds}
+			g := &shapeGen{leafKinds: kinds, counter: rotationOf(name)}
 			root = g.build(d, "r")
 			menu, setup = mk(root)
 		}
@@ -177,7 +177,7 @@ func (h *H) finishErrOnly(err error) {
 	checkErrMatch(err, out.err)
 }
 
-var c04Kinds = []int{kBase, kBaseFb, kBare, kFuncR, kFuncA, kBareRetry, kFuncRB}
+var c04Kinds = []int{kBase, kBaseFb, kBare, kFuncR, kFuncA, kBareRetry, kFuncRB, kFuncAB, kFuncMix}
 
 func genC04(tier string) []Scenario {
 	var out []Scenario
